@@ -124,7 +124,9 @@ func connectComponent(wf *sp.Workflow, w *WF, i int, procs []outPorter, rt *Runt
 	ca := procs[i].(*compAdapter)
 	for _, in := range n.Ins {
 		if in.Unconnected {
-			ca.in(in.Name) // the port exists but nothing is connected to it
+			if n.Kind != KGlobber { // (a dependent globber has its in_dep port by construction)
+				ca.in(in.Name) // the port exists but nothing is connected to it
+			}
 			continue
 		}
 		for _, e := range in.From {
